@@ -6,8 +6,20 @@ of the real code vs the same model executed at Rat (driver ops `pl.approx`, `pl.
 [T]: the half-step bound itself, evaluated on the real code against the exact landscape at the grid nodes
 (an independent Fraction oracle, cross-checked against the driver's `pl.lambda.grid`), transformer = approx values
 (code against code, diagrams with infinite bars included), vectorize = evalPL of the code's own critical pairs AND
-vectorize(PersLandscapeExact(diagram)) against the true landscape at the grid nodes (failures with the C03 repeated-bar
-shortcut fired are the known finding `site=persim/landscapes/exact.py:repeated-bar-shortcut`), death vector sorted + permutation.
+vectorize(PersLandscapeExact(diagram)) against the true landscape at the grid nodes, death vector sorted + permutation
+(of the finite deaths: the statement is about finite diagrams).
+
+Known finding `site=persim/landscapes/exact.py:repeated-bar-shortcut`, recognised BY CONTENT: a failing
+vectorize(PersLandscapeExact(diagram)) case is attributed to it only if the call returned, vectorize reproduces the
+landscape object's OWN critical pairs at the nodes (so the error is upstream, in the landscape) and those critical pairs are
+exactly what the Lean model of the sweep with the shortcut returns for the diagram (model's shortcut fired).  A raise, an
+unfaithful sampling, or critical pairs wrong in another way are VIOLATIONs even when the trace fired.
+
+What the statement leaves free is not judged (a difference from the model there is a correspondence break, found_input=False):
+the DEFAULT grid and default num_steps (the bound is judged on the grid the object itself reports for whatever the caller
+left out; it must cover the bars to be judged at all), what `transform` does on a never-fitted transformer (NotFittedError is
+scikit-learn's convention), a values array with zero rows (depths not returned count as zero), infinite deaths in
+`death_vector`.
 
 A grid on which no bar is visible gives ONE ZERO ROW (np.zeros((1, num_steps)), /repo fix 357d745): the model returns the
 same row and arrays are compared as they are; a non-numeric `values` (the former string placeholder ['empty']) on a covering
@@ -17,12 +29,13 @@ Tolerances (why):
 * exact stream — start, step, bar endpoints are small dyadic numbers, `num_steps-1` a power of two or the step given
   directly, so every float operation of the code (linspace, |grid-x|, argmin incl. ties at midpoints, j*step) is
   exact: arrays are compared with `==`.  The harness re-checks that np.linspace really produced the exact grid.
-* generic stream — |code-model| <= 1e-9*max(1,|start|,|stop|).  Rounding in np.linspace / |grid-x| can flip the snap of
+* generic stream — |code-model| <= 1e-9*max(|start|,|stop|,|coordinates|) (no floor: small scales are not vacuous).  Rounding in np.linspace / |grid-x| can flip the snap of
   an endpoint that lies (within rounding) on the midpoint between two nodes; the model then snaps to the other node and
   the arrays differ by up to one step although both are within the bound.  Such cases (some endpoint within
   1e-7 index units, scaled by |coordinates|/step, of a half-integer grid position) are counted as `razor` and only the
   bound is checked on them.
-* the bound itself is checked on every covered case as |values[k][i] - lambda_k(g_i)| <= step/2 + 1e-9*max(1,|start|,|stop|):
+* the bound itself is checked on every covered case as |values[k][i] - lambda_k(g_i)| <= step/2 + 1e-9*max(|start|,|stop|,|coordinates|)
+  (on-grid: 0 + that slack, i.e. rounding level relative to the case's own scale):
   a flipped tie still leaves the endpoint step/2 (+rounding) from its node, so no extra allowance is needed.
 """
 import contextlib, io, math
@@ -52,7 +65,8 @@ ASSUMPTIONS = [
     "coordinates are finite or +inf; -inf/NaN inputs are outside the model",
 ]
 TRUSTED = ["harness/props/c08.py Fraction oracle for the true landscape (cross-checked against the driver's pl.lambda.grid on every run)",
-           "the guarded trace persim.landscapes.exact._VERIF_TRACE is used only to attribute a wrong vectorize result to the known repeated-bar shortcut",
+           "the guarded trace persim.landscapes.exact._VERIF_TRACE is only counted; the known finding is recognised by content (faithful "
+           "sampling of critical pairs that equal the Lean model's shortcut output)",
            "the compiled driver executable is trusted as compiled by Lean's compiler, not checked by the kernel"]
 # theorems that carry a clause of the property (helpers, concrete instances and definitional restatements excluded)
 CORE_THEOREMS = ["kth_lipschitz", "snap_error", "tent_lipschitz", "ramps_are_snapped_tents", "approx_shape", "approx_rows",
@@ -96,30 +110,42 @@ def code_approx(dgms, hd, start, stop, n, grid_out=None):
     return canon_values(v.values)
 
 
-def code_transform(dgms, hd, start, stop, n, flatten, fit):
+def code_transform(dgms, hd, start, stop, n, flatten, fit, grid_out=None):
+    """-> values | 'err:Kind'; grid_out receives the transformer's own (start, stop, num_steps) after the call"""
     T = common.pm("landscapes.transformer").PersistenceLandscaper
     X = [arr(d) for d in dgms]
 
     kw = {} if n == DEFAULT_STEPS else {"num_steps": n}
+    box = []
 
     def go():
         t = T(hom_deg=hd, start=start, stop=stop, flatten=flatten, **kw)
+        box.append(t)
         if fit == "fit_transform":
             return t.fit_transform(X)
         if fit == "fit+transform":
             return t.fit(X).transform(X)
         return t.transform(X)
     st, v, _ = _quiet(go)
+    if grid_out is not None and box:
+        try:
+            grid_out.extend([box[0].start, box[0].stop, box[0].num_steps])
+        except Exception:
+            pass
     return "err:" + v if st == "err" else canon_values(v)
 
 
-def code_vectorize(cps, start, stop, n):
+def code_vectorize(cps, start, stop, n, grid_out=None):
     PLE = common.pm("landscapes.exact").PersLandscapeExact
     vec = common.pm("landscapes.tools").vectorize
     kw = {} if n == DEFAULT_STEPS else {"num_steps": n}
     st, v, _ = _quiet(lambda: vec(PLE(critical_pairs=[[list(p) for p in d] for d in cps], hom_deg=0),
-                                  start=start, stop=stop, **kw).values)
-    return "err:" + v if st == "err" else canon_values(v)
+                                  start=start, stop=stop, **kw))
+    if st == "err":
+        return "err:" + v
+    if grid_out is not None:
+        grid_out.extend([v.start, v.stop, v.num_steps])
+    return canon_values(v.values)
 
 
 def code_death(dgms, hd):
@@ -165,18 +191,40 @@ def eval_pl(cps, t):
     return F(0)
 
 
+def judged_grid(c, used):
+    """the grid on which the statement is judged: what the caller gave; for what the caller left to the code (start / stop
+    None, num_steps omitted) the value the object itself reports.  The statement quantifies over grids that contain every
+    birth and death; it does not fix the default.  -> (start, stop, n) or None"""
+    try:
+        s = float(c["start"]) if c["start"] is not None else float(used[0])
+        e = float(c["stop"]) if c["stop"] is not None else float(used[1])
+        n = int(c["n"]) if c["n"] != DEFAULT_STEPS else int(used[2])
+    except (TypeError, ValueError, IndexError):
+        return None
+    if not (math.isfinite(s) and math.isfinite(e)):
+        return None
+    return s, e, n
+
+
+def nat_scale(start, stop, bars=()):
+    """natural scale of a case: the largest |coordinate| of grid and bars (no floor: a grid in units of 2^-20 is judged in
+    those units)"""
+    return max([abs(float(start)), abs(float(stop))] + [abs(float(x)) for b in bars for x in b if math.isfinite(float(x))])
+
+
 def covers(bars, start, stop):
     return all(start <= b <= stop and start <= d <= stop for b, d in bars)
 
 
 def bound_check(vals, bars, start, stop, n):
     """the statement of C08 on the real code's output.  Returns (ok, detail, on_grid)."""
-    scale = max(1.0, abs(start), abs(stop))
+    scale = nat_scale(start, stop, bars)
     step, nodes = exact_grid(start, stop, n)
     lam = true_landscape(bars, nodes)
     rows = vals
-    if not rows or any(not isinstance(r, list) or len(r) != n for r in rows):
-        return False, "values is not a (>=1) x num_steps array", False
+    # zero rows are allowed: depths beyond those returned count as zero
+    if not isinstance(rows, list) or any(not isinstance(r, list) or len(r) != n for r in rows):
+        return False, "values is not a depth x num_steps array", False
     nodeset = set(nodes)
     on_grid = all(fr(b) in nodeset and fr(d) in nodeset for b, d in bars)
     worst = F(0)
@@ -197,7 +245,7 @@ def razor(bars, start, stop, n):
     if n < 2 or start == stop:
         return False
     step, _ = exact_grid(start, stop, n)
-    scale = max(1.0, abs(start), abs(stop))
+    scale = nat_scale(start, stop)
     thr = 1e-7 * max(1.0, scale / abs(float(step)))
     for b in bars:
         for x in b:
@@ -224,7 +272,22 @@ def same(code, model, exact, scale):
             (isinstance(m, list) and len(r) == len(m) and all(eqx(a, b) for a, b in zip(r, m))) if isinstance(r, list)
             else (not isinstance(m, list) and eqx(r, m))
             for r, m in zip(code, model))
-    return common.close_nested(code, model, TOL, scale)
+    return close_rel(code, model, TOL * scale)
+
+
+def close_rel(a, b, slack):
+    """nested comparison with an absolute slack the caller derives from the natural scale (no max(1, .) floor)"""
+    if isinstance(a, (list, tuple)) or isinstance(b, (list, tuple)):
+        return isinstance(a, (list, tuple)) and isinstance(b, (list, tuple)) and len(a) == len(b) and \
+            all(close_rel(x, y, slack) for x, y in zip(a, b))
+    if isinstance(a, str) or isinstance(b, str) or a is None or b is None:
+        return a == b
+    a, b = float(a), float(b)
+    if math.isnan(a) or math.isnan(b):
+        return math.isnan(a) and math.isnan(b)
+    if math.isinf(a) or math.isinf(b):
+        return a == b
+    return abs(a - b) <= slack
 
 
 # ----------------------------------------------------------------------------- generators
@@ -390,17 +453,18 @@ def check_approx_case(ctx, c, model, corr_failures):
     """one PersLandscapeApprox case: the property on the real code, then code against model"""
     used = []
     code = code_approx(c["dgms"], c["hom_deg"], c["start"], c["stop"], c["n"], used)
-    grid = resolved_grid(c)
-    bars = finite_bars(c["dgms"][c["hom_deg"]]) if grid else []
-    if used and grid is not None:
-        # the grid the object reports: the one given, else [min birth, max death] of the finite bars (so that it covers them)
-        okg = float(used[0]) == grid[0] and float(used[1]) == grid[1] and used[2] == c["n"]
-        ctx.test("grid_is_given_or_tight_default", okg)
-        if not okg:
-            ctx.violation("PersLandscapeApprox uses the grid [%r, %r] x %r instead of [%r, %r] x %r (given values, else min birth / max death)"
-                          % (used[0], used[1], used[2], grid[0], grid[1], c["n"]), dict(c, code=code), found_input=True,
-                          law="grid_is_given_or_tight_default")
-            return False
+    grid = resolved_grid(c)                        # the model's grid: the one given, else [min birth, max death]
+    valid = bool(c["dgms"]) and 0 <= c["hom_deg"] < len(c["dgms"])
+    bars = finite_bars(c["dgms"][c["hom_deg"]]) if valid else []
+    jg = judged_grid(c, used) if used else None    # the grid the statement is judged on: given values, else the object's own
+    grid_differs = False
+    if used and grid is not None and jg is not None:
+        # which default the code picks (and what its attributes report) is not fixed by the statement: correspondence only
+        try:
+            grid_differs = not (float(used[0]) == grid[0] and float(used[1]) == grid[1] and int(used[2]) == c["n"])
+        except (TypeError, ValueError):
+            grid_differs = True
+        ctx.test("grid_is_given_or_models_default(correspondence)", not grid_differs)
     nontriv = len(bars) >= 2 and isinstance(code, list)
     ctx.case({k: c[k] for k in ("op", "dgms", "hom_deg", "start", "stop", "n")}, nontriv, sample_every=211)
     ctx.count("approx:" + c["kind"])
@@ -408,29 +472,35 @@ def check_approx_case(ctx, c, model, corr_failures):
     if isinstance(code, list) and bars and len(code) == 1 and not any(code[0]):
         ctx.count("approx-result:one-zero-row-with-%s" % ("bars-shorter-than-a-step" if c["n"] >= 3 else "2-node-grid"))
     prop_ok = True
-    if grid is not None and c["n"] >= 2 and grid[0] <= grid[1] and covers(bars, grid[0], grid[1]):
-        s, e = grid
-        if isinstance(code, str):
+    if isinstance(code, str) and valid and grid is not None and c["n"] >= 2 and grid[0] <= grid[1] and covers(bars, grid[0], grid[1]):
+        # a covering grid (given, or - all defaults - whatever the code would pick) and no numeric result
+        prop_ok = False
+        ctx.test("half_step_bound", False)
+        ctx.violation("PersLandscapeApprox returns no numeric values on a covering grid: %s" % code, dict(c, code=code),
+                      found_input=True, law="half_step_bound")
+    elif not isinstance(code, str) and valid and jg is not None and jg[2] >= 2 and jg[0] <= jg[1] and covers(bars, jg[0], jg[1]):
+        s, e, n = jg
+        ok, detail, on_grid = bound_check(code, bars, s, e, n)
+        ctx.test("half_step_bound", ok)
+        if on_grid:
+            ctx.test("exact_on_grid", ok)
+        if not ok:
             prop_ok = False
-            ctx.test("half_step_bound", False)
-            ctx.violation("PersLandscapeApprox returns no numeric values on a covering grid: %s" % code, dict(c, code=code),
-                          found_input=True, law="half_step_bound")
-        else:
-            ok, detail, on_grid = bound_check(code, bars, s, e, c["n"])
-            ctx.test("half_step_bound", ok)
-            if on_grid:
-                ctx.test("exact_on_grid", ok)
-            if not ok:
-                prop_ok = False
-                ctx.violation("PersLandscapeApprox values are farther than %s from the true landscape: %r"
-                              % ("0 (all endpoints are nodes)" if on_grid else "step/2", detail),
-                              dict(c, code=code), found_input=True, law="half_step_bound", detail=detail)
+            ctx.violation("PersLandscapeApprox values are farther than %s from the true landscape on the grid [%r, %r] x %d: %r"
+                          % ("0 (all endpoints are nodes)" if on_grid else "step/2", s, e, n, detail),
+                          dict(c, code=code), found_input=True, law="half_step_bound", detail=detail, judged_grid=[s, e, n])
+    elif not isinstance(code, str) and valid and jg is not None and (c["start"] is None or c["stop"] is None) and bars \
+            and jg[2] >= 2 and jg[0] <= jg[1]:
+        ctx.count("default-grid-of-the-code-does-not-cover-the-bars(not judged)")
+    if grid_differs:
+        corr_failures.append((dict(c, grid_reported=[_short(x, 40) for x in used]), code, model, prop_ok))
+        return prop_ok
     # exactness of the code's own grid on the exact stream (harness self-check; falls back to the tolerance)
     exact = c["exact"]
     scale = 1.0
     if grid:
         s, e = grid
-        scale = max(1.0, abs(s), abs(e))
+        scale = nat_scale(s, e, bars)
         if exact and c["n"] >= 2:
             gv, st = np.linspace(s, e, c["n"], retstep=True)
             stepx, nodes = exact_grid(s, e, c["n"])
@@ -508,8 +578,7 @@ def stream_transform(ctx, corr_failures):
     lines = ["pl.transform %s %d %s %s %d %s %s" % (enc(c["dgms"]), c["hom_deg"], enc(c["start"]), enc(c["stop"]), c["n"],
                                                      enc(c["flatten"]), enc(c["fit"] != "transform")) for c in cases]
     for c, model in zip(cases, ask(lines)):
-        code = code_transform(c["dgms"], c["hom_deg"], c["start"], c["stop"], c["n"], c["flatten"], c["fit"])
-        direct = code_approx(c["dgms"], c["hom_deg"], c["start"], c["stop"], c["n"])
+        ok, code, direct, tg = transform_eval(c)
         full = c["dgms"][c["hom_deg"]] if c["hom_deg"] < len(c["dgms"]) else []
         bars = finite_bars(full)
         ctx.case({k: c[k] for k in ("op", "dgms", "hom_deg", "start", "stop", "n", "flatten", "fit")},
@@ -517,24 +586,23 @@ def stream_transform(ctx, corr_failures):
         ctx.count("transform:%s:%s" % (c["fit"], "flat" if c["flatten"] else "2d"))
         if len(full) > len(bars):
             ctx.count("transform:with-infinite-bars:" + c["fit"])
-        # the property, code against code: exactly the values of the approximate landscape, row-major
-        want = direct
-        if isinstance(direct, list) and c["flatten"]:
-            want = [x for row in direct for x in row]
-        is_err = lambda v: isinstance(v, str) and v.startswith("err:")
-        # both raise: the kinds are compared with the model below (fit may raise before the constructor does)
-        ok = (is_err(code) and is_err(direct)) or code == want
-        ctx.test("transformer_is_approx", ok)
-        if not ok:
-            ctx.violation("PersistenceLandscaper.%s does not return the values of PersLandscapeApprox%s: transformer=%r approx=%r"
-                          % (c["fit"], " flattened row-major" if c["flatten"] else "", code, direct),
+        if ok is None:
+            # `transform` on a transformer that was never fitted raised: the statement is about fitted transformers
+            # (scikit-learn's convention is NotFittedError); only the model comparison below sees it
+            ctx.count("transform:unfitted-transform-raised(not judged):" + code)
+        else:
+            ctx.test("transformer_is_approx", ok)
+        if ok is False:
+            ctx.violation("PersistenceLandscaper.%s does not return the values of PersLandscapeApprox on the transformer's grid %r%s: "
+                          "transformer=%s approx=%s" % (c["fit"], tg, " flattened row-major" if c["flatten"] else "",
+                                                        _short(code), _short(direct)),
                           dict(c), found_input=True, law="transformer_is_approx")
             if len(ctx.violations) > 5:
                 return
         g = resolved_grid(c)
         exact, scale = c["exact"], 1.0
         if g:
-            scale = max(1.0, abs(g[0]), abs(g[1]))
+            scale = nat_scale(g[0], g[1], bars)
             if exact and c["n"] >= 2:
                 gv, st = np.linspace(g[0], g[1], c["n"], retstep=True)
                 stepx, nodes = exact_grid(g[0], g[1], c["n"])
@@ -543,7 +611,30 @@ def stream_transform(ctx, corr_failures):
                 ctx.count("razor")
                 continue
         if not same(code, model, exact, scale):
-            corr_failures.append((c, code, model, ok))
+            corr_failures.append((c, code, model, ok is not False))
+
+
+def transform_eval(c):
+    """the transformer clause on one case, code against code: the output must be exactly the values of PersLandscapeApprox on
+    the grid the TRANSFORMER ends up with (what the caller gave; what `fit` learned for the rest - the statement does not fix
+    that default), row-major when flattened.  -> (ok | None = not judged, transformer output, approx values, grid)"""
+    tg = []
+    code = code_transform(c["dgms"], c["hom_deg"], c["start"], c["stop"], c["n"], c["flatten"], c["fit"], tg)
+    is_err = lambda v: isinstance(v, str) and v.startswith("err:")
+    s, e, n = c["start"], c["stop"], c["n"]
+    if len(tg) == 3 and not is_err(code):
+        s = tg[0] if s is None else s
+        e = tg[1] if e is None else e
+        n = tg[2] if n == DEFAULT_STEPS and isinstance(tg[2], (int, np.integer)) else n
+    direct = code_approx(c["dgms"], c["hom_deg"], s, e, n)
+    want = direct
+    if isinstance(direct, list) and c["flatten"]:
+        want = [x for row in direct for x in row]
+    if is_err(code) and c["fit"] == "transform" and not is_err(direct):
+        return None, code, direct, (s, e, n)
+    # both raise: the kinds are compared with the model (fit may raise before the constructor does)
+    ok = (is_err(code) and is_err(direct)) or code == want
+    return ok, code, direct, (s, e, n)
 
 
 def fit_other_eval(c):
@@ -654,35 +745,54 @@ def stream_vectorize(ctx, corr_failures):
         cases.append({"op": "vectorize", "cps": cps, "start": s, "stop": e, "n": n, "src": src, "kind": kind})
     lines = ["pl.vectorize %s %s %s %d" % (enc(c["cps"]), enc(c["start"]), enc(c["stop"]), c["n"]) for c in cases]
     for c, model in zip(cases, ask(lines)):
-        code = code_vectorize(c["cps"], c["start"], c["stop"], c["n"])
+        ok, code, scale, jg = vectorize_eval(c)
         ctx.case({k: c[k] for k in ("op", "cps", "start", "stop", "n")}, any(len(d) >= 3 for d in c["cps"]) and isinstance(code, list),
                  sample_every=131)
         ctx.count("vectorize:%s:%s" % (c["src"], c["kind"]))
-        xs0 = [p[0] for p in c["cps"][0]]
-        s = min(xs0) if c["start"] is None else c["start"]
-        e = max(xs0) if c["stop"] is None else c["stop"]
-        scale = max([1.0, abs(s), abs(e)] + [abs(p[1]) for d in c["cps"] for p in d])
-        ok = True
-        wellformed = all(len(d) >= 2 and d[0][1] == 0 and d[-1][1] == 0 for d in c["cps"])
-        if isinstance(code, list) and wellformed:
-            gv = np.linspace(s, e, c["n"])
-            for k, d in enumerate(c["cps"]):
-                dd = [(fr(x), fr(y)) for x, y in d]
-                for i, t in enumerate(gv):
-                    if abs(float(fr(code[k][i]) - eval_pl(dd, fr(t)))) > TOL * scale:
-                        ok = False
+        if ok is not None:
             ctx.test("vectorize_samples_evalPL", ok)
             if not ok:
-                ctx.violation("vectorize does not reproduce the exact landscape's values at the grid points",
+                ctx.violation("vectorize does not reproduce the exact landscape's values at the grid points of [%r, %r] x %r" % jg,
                               dict(c, code=code), found_input=True, law="vectorize_samples_evalPL")
                 if len(ctx.violations) > 5:
                     return
         if not same(code, model, False, scale):
-            corr_failures.append((c, code, model, ok))
+            corr_failures.append((c, code, model, ok is not False))
 
 
-def code_vectorize_true(bars, start, stop, n):
-    """vectorize(PersLandscapeExact(dgms=[bars])) -> (values | 'err:Kind', shortcut firings, (start, stop) used)"""
+def vectorize_eval(c):
+    """the vectorize clause on synthetic / computed critical pairs: the values must be the linear interpolation of the landscape's
+    own critical pairs at the nodes of the grid (given values; for start / stop / num_steps left to the code, what the returned
+    object reports).  -> (ok | None = not judged, values, scale, judged grid)"""
+    used = []
+    code = code_vectorize(c["cps"], c["start"], c["stop"], c["n"], used)
+    xs0 = [p[0] for p in c["cps"][0]]
+    ms = min(xs0) if c["start"] is None else c["start"]          # the model's defaults (correspondence)
+    me = max(xs0) if c["stop"] is None else c["stop"]
+    scale = max([abs(ms), abs(me)] + [abs(p[1]) for d in c["cps"] for p in d])
+    jg = judged_grid(c, used) if used else None
+    wellformed = all(len(d) >= 2 and d[0][1] == 0 and d[-1][1] == 0 for d in c["cps"])
+    if not (isinstance(code, list) and wellformed and jg is not None and jg[2] >= 1):
+        return None, code, scale, jg
+    s, e, n = jg
+    if any(not isinstance(r, list) or len(r) != n for r in code) or len(code) > len(c["cps"]):
+        return False, code, scale, jg
+    gv = np.linspace(s, e, n)
+    sc = max([abs(s), abs(e)] + [abs(p[1]) for d in c["cps"] for p in d] + [abs(p[0]) for d in c["cps"] for p in d])
+    for k, d in enumerate(c["cps"]):
+        dd = [(fr(x), fr(y)) for x, y in d]
+        for i, t in enumerate(gv):
+            if k < len(code) and not math.isfinite(code[k][i]):
+                return False, code, scale, jg
+            v = fr(code[k][i]) if k < len(code) else F(0)        # depths beyond those returned count as zero
+            if abs(float(v - eval_pl(dd, fr(t)))) > TOL * sc:
+                return False, code, scale, jg
+    return True, code, scale, jg
+
+
+def code_vectorize_true(bars, start, stop, n, cps_out=None):
+    """vectorize(PersLandscapeExact(dgms=[bars])) -> (values | 'err:Kind', shortcut firings, (start, stop, num_steps) the result
+    reports); cps_out receives the critical pairs of the landscape object that was vectorized"""
     mod = common.pm("landscapes.exact")
     vec = common.pm("landscapes.tools").vectorize
     trace = mod._VERIF_TRACE
@@ -690,20 +800,34 @@ def code_vectorize_true(bars, start, stop, n):
         raise common.HarnessError("persim.landscapes.exact._VERIF_TRACE is None: the PERSIM_VERIF hook is off")
     del trace[:]
     kw = {} if n == DEFAULT_STEPS else {"num_steps": n}
+    box = []
+
+    def go():
+        P = mod.PersLandscapeExact(dgms=[arr(bars)], hom_deg=0)
+        box.append(P)
+        return vec(P, start=start, stop=stop, **kw)
     with np.errstate(all="ignore"):
-        st, v, _ = _quiet(lambda: vec(mod.PersLandscapeExact(dgms=[arr(bars)], hom_deg=0), start=start, stop=stop, **kw))
+        st, v, _ = _quiet(go)
     fired = sum(1 for x in trace if x[0] == "repeated-bar-shortcut")
     del trace[:]
+    if cps_out is not None and box:
+        try:
+            cps_out.extend([[float(x), float(y)] for x, y in d] for d in box[0].critical_pairs)
+        except Exception:
+            pass
     if st == "err":
         return "err:" + v, fired, None
-    return canon_values(v.values), fired, (float(v.start), float(v.stop))
+    try:
+        return canon_values(v.values), fired, (float(v.start), float(v.stop), int(v.num_steps))
+    except (TypeError, ValueError):
+        return canon_values(v.values), fired, None
 
 
 def vectorize_true_check(code, bars, grid, n):
-    """`vectorize(P, ...).values` against the TRUE landscape of the diagram at the nodes of the code's own grid
+    """`vectorize(P, ...).values` against the TRUE landscape of the diagram at the nodes of the judged grid
     (rows beyond those returned count as zero).  -> (ok, detail)"""
-    s, e = grid
-    scale = max([1.0, abs(s), abs(e)] + [abs(x) for b in bars for x in b])
+    s, e = grid[0], grid[1]
+    scale = nat_scale(s, e, bars)
     if not isinstance(code, list) or any(not isinstance(r, list) or len(r) != n for r in code):
         return False, {"why": "values is not a depth x num_steps array", "code": _short(code)}
     nodes = [fr(t) for t in np.linspace(s, e, n)]
@@ -711,13 +835,67 @@ def vectorize_true_check(code, bars, grid, n):
     worst, where = F(0), None
     for k in range(max(len(code), len(lam))):
         for i in range(n):
+            if k < len(code) and not math.isfinite(code[k][i]):
+                return False, {"why": "non-finite value", "where": (k, i)}
             v = fr(code[k][i]) if k < len(code) else F(0)
             t = lam[k][i] if k < len(lam) else F(0)
-            if not math.isfinite(float(v)):
-                return False, {"why": "non-finite value", "where": (k, i)}
             if abs(v - t) > worst:
                 worst, where = abs(v - t), (k, i, float(v), float(t))
     return float(worst) <= TOL * scale, {"worst": float(worst), "where(depth,node,code,true)": where}
+
+
+def faithful_sampling(code, cps, grid, n, bars):
+    """does `vectorize` reproduce the landscape object's OWN critical pairs at the nodes (so that a wrong value comes from the
+    landscape, i.e. from upstream of what C08 is about)?"""
+    if not isinstance(code, list) or not cps or len(code) != len(cps) or any(not isinstance(r, list) or len(r) != n for r in code):
+        return False
+    scale = nat_scale(grid[0], grid[1], bars)
+    gv = np.linspace(grid[0], grid[1], n)
+    for row, d in zip(code, cps):
+        if len(d) < 2:
+            return False
+        want = np.interp(gv, [p[0] for p in d], [p[1] for p in d])
+        if not np.all(np.abs(np.asarray(row, dtype=float) - want) <= TOL * scale):
+            return False
+    return True
+
+
+def vectorize_true_eval(c):
+    """one case of the `vectorize(PersLandscapeExact(diagram))` clause.  -> dict(ok, detail, code, fired, grid, cps, faithful);
+    ok is None when nothing is judged (the defaults the code picked are not a grid with >= 1 node)"""
+    cps = []
+    code, fired, rg = code_vectorize_true(c["bars"], c["start"], c["stop"], c["n"], cps)
+    out = {"code": code, "fired": fired, "cps": cps, "grid": rg, "faithful": False, "raised": isinstance(code, str)}
+    if isinstance(code, str):
+        out.update(ok=False, detail={"why": "vectorize raised %s on the landscape of a diagram" % code})
+        return out
+    jg = judged_grid(c, rg) if rg else None
+    if jg is None or jg[2] < 1:
+        if c["start"] is not None and c["stop"] is not None and c["n"] != DEFAULT_STEPS:
+            out.update(ok=False, detail={"why": "the result reports no usable grid", "grid": _short(rg)})
+        else:
+            out.update(ok=None, detail={"why": "defaults of the code give no usable grid", "grid": _short(rg)})
+        return out
+    out["grid"] = jg
+    ok, detail = vectorize_true_check(code, c["bars"], jg, jg[2])
+    out.update(ok=ok, detail=detail)
+    if not ok:
+        out["faithful"] = faithful_sampling(code, cps, jg, jg[2], c["bars"])
+    return out
+
+
+def is_known_shortcut_output(cps, bars, model):
+    """attribution by content: the landscape object's critical pairs are exactly what the model of the current sweep - repeated-bar
+    shortcut included - returns for this diagram, and the model's shortcut fired (without a firing the model is proved correct)"""
+    if not (isinstance(model, list) and len(model) == 2 and int(model[1]) > 0):
+        return False
+    mc = model[0]
+    if len(mc) != len(cps):
+        return False
+    exact = all(float(x) == round(float(x) * 2 ** 30) / 2 ** 30 for b in bars for x in b)
+    slack = F(0) if exact else fr(TOL * nat_scale(0.0, 0.0, bars))
+    return all(len(a) == len(b) and all(abs(fr(p[0]) - q[0]) <= slack and abs(fr(p[1]) - q[1]) <= slack for p, q in zip(a, b))
+               for a, b in zip(cps, mc))
 
 
 def known_text(kf):
@@ -730,23 +908,34 @@ def known_listed():
     return [t for k, t in common.known_findings("C08") if k == "known" and KNOWN_SITE in t]
 
 
+def attributable(res, bars):
+    """a failing vectorize_true case is the known finding only if (a) the call returned, (b) vectorize faithfully samples the
+    landscape object's own critical pairs at the nodes, and (c) those critical pairs are the known shortcut output"""
+    if res["raised"] or not res["faithful"]:
+        return False
+    model = ask(["pl.exact 0 %s" % enc([bars])])[0]
+    return is_known_shortcut_output(res["cps"], bars, model)
+
+
 def known_replay(ctx):
-    """replay the listed finding on the real code; while it still fails print the KNOWN-FINDING line"""
+    """replay the listed finding on the real code; while it still fails in the listed way print the KNOWN-FINDING line"""
     kf = known_listed()
     c = KNOWN_CASE
-    code, fired, grid = code_vectorize_true(c["bars"], c["start"], c["stop"], c["n"])
-    ok, detail = (False, {"why": code}) if grid is None else vectorize_true_check(code, c["bars"], grid, c["n"])
+    res = vectorize_true_eval(c)
+    ok = res["ok"] is True
     ctx.extra["known_finding_still_fails"] = not ok
-    ctx.extra["known_finding_shortcut_fired"] = fired
-    if not ok and fired:
+    ctx.extra["known_finding_shortcut_fired"] = res["fired"]
+    if not ok and attributable(res, c["bars"]):
         if not kf:
             ctx.violation("vectorize is wrong where the repeated-bar shortcut fires and this is not listed in known_findings.txt",
-                          dict(c, code=code, detail=detail), found_input=True, law="vectorize_true_landscape")
+                          dict(c, code=res["code"], detail=res["detail"]), found_input=True, law="vectorize_true_landscape")
         else:
             ctx.known(KNOWN_KEY, known_text(kf))
     elif not ok:
-        ctx.violation("vectorize(PersLandscapeExact([(1,5),(1,5),(3,6)]),1,6,11) is wrong and the shortcut trace did not fire: %r"
-                      % (detail,), dict(c, code=code, detail=detail), found_input=True, law="vectorize_true_landscape")
+        ctx.violation("vectorize(PersLandscapeExact([(1,5),(1,5),(3,6)]),1,6,11) fails in a way that is not the listed one (the "
+                      "landscape's critical pairs are not the shortcut output, or vectorize does not sample them faithfully, or "
+                      "the call raised): %r" % (res["detail"],), dict(c, code=res["code"], detail=res["detail"]), found_input=True,
+                      law="vectorize_true_landscape")
     else:
         print("note: the listed known finding of C08 no longer reproduces on this tree", flush=True)
     return kf
@@ -754,8 +943,9 @@ def known_replay(ctx):
 
 def stream_vectorize_true(ctx):
     """[T] vectorize of the exact landscape OF A DIAGRAM against the true landscape lambda_k at the grid nodes.  The theorem
-    `vectorize_samples_evalPL` is about the landscape's own critical pairs; "true values" needs C03 on top.  A failure with
-    the C03 shortcut fired is the known finding (counted); any other failure is a violation."""
+    `vectorize_samples_evalPL` is about the landscape's own critical pairs; "true values" needs C03 on top.  A failure is the
+    known finding (counted) only when `attributable` says so - by content, never because the call raised or because the trace
+    fired; any other failure is a violation."""
     r = ctx.rng
     kf = known_replay(ctx)
     attributed = fired_cases = 0
@@ -778,27 +968,35 @@ def stream_vectorize_true(ctx):
         else:
             s, e = lo + span * 0.25, hi - span * 0.125
         c = {"op": "vectorize_true", "bars": bars, "start": s, "stop": e, "n": n}
-        code, fired, grid = code_vectorize_true(bars, s, e, n)
+        res = vectorize_true_eval(c)
+        code, fired, ok, detail = res["code"], res["fired"], res["ok"], res["detail"]
         ctx.case(c, len(bars) >= 2 and isinstance(code, list), sample_every=97)
         ctx.count("vectorize_true:%s:%s" % (kind, "shortcut-fired" if fired else "no-shortcut"))
         fired_cases += 1 if fired else 0
-        if grid is None:
-            ok, detail = False, {"why": "vectorize raised %s on the landscape of a diagram" % code}
-        else:
-            ok, detail = vectorize_true_check(code, bars, grid, n)
-        if not ok and fired and kf:
+        if ok is None:
+            ctx.count("vectorize_true:not-judged(defaults give no grid)")
+            continue
+        if not ok and kf and attributable(res, bars):
             attributed += 1          # the known finding: counted, not reported
             ctx.known(KNOWN_KEY, known_text(kf))
             continue
         ctx.test("vectorize_true_landscape", ok)
         if not ok:
-            ctx.violation("vectorize(PersLandscapeExact(diagram)) differs from the true landscape at the grid nodes "
-                          "(repeated-bar shortcut fired: %d): %r" % (fired, detail), dict(c, code=code, fired=fired, detail=detail),
-                          found_input=True, law="vectorize_true_landscape")
+            ctx.violation("vectorize(PersLandscapeExact(diagram)) differs from the true landscape at the grid nodes and this is not "
+                          "the known shortcut output sampled faithfully (trace fired: %d, raised: %s, samples the landscape's own "
+                          "critical pairs: %s): %r" % (fired, res["raised"], res["faithful"], detail),
+                          dict(c, code=code, fired=fired, detail=detail), found_input=True, law="vectorize_true_landscape")
             if len(ctx.violations) > 5:
                 break
     ctx.extra["vectorize_true_shortcut_fired_cases"] = fired_cases
     ctx.extra["vectorize_true_attributed_to_known_finding"] = attributed
+
+
+def death_ok(code, dgm):
+    """the death-vector clause: the deaths in non-increasing order.  The statement is about finite diagrams: what happens to an
+    infinite death (kept in front, or dropped) is not judged - the finite entries must be the finite deaths, sorted"""
+    fin = [x for x in code if x != math.inf]
+    return all(a >= b for a, b in zip(fin, fin[1:])) and sorted(fin) == sorted(float(b[1]) for b in dgm if b[1] != math.inf)
 
 
 def stream_death(ctx, corr_failures):
@@ -816,8 +1014,9 @@ def stream_death(ctx, corr_failures):
         ctx.count("death:" + (code if isinstance(code, str) else "ok"))
         ok = True
         if isinstance(code, list):
-            deaths = [float(b[1]) for b in c["dgms"][0]]
-            ok = all(a >= b for a, b in zip(code, code[1:])) and sorted(code) == sorted(deaths)
+            ok = death_ok(code, c["dgms"][0])
+            if any(b[1] == math.inf for b in c["dgms"][0]):
+                ctx.count("death:diagram-with-infinite-deaths(judged on the finite ones)")
             ctx.test("death_vector_sorted", ok)
             if not ok:
                 ctx.violation("death_vector is not the deaths in non-increasing order: %r" % (code,), dict(c), found_input=True,
@@ -825,7 +1024,7 @@ def stream_death(ctx, corr_failures):
                 if len(ctx.violations) > 5:
                     return
         elif c["hom_deg"] != 0:
-            ctx.test("death_vector_rejects_higher_degree", code == "err:NotImplementedError")
+            ctx.test("death_vector_rejects_higher_degree", isinstance(code, str) and code.startswith("err:"))
         if not same(code, model, True, 1.0):
             corr_failures.append((c, code, model, ok))
 
@@ -952,53 +1151,41 @@ def replay(ctx, rep):
     if op == "approx":
         used = []
         code = code_approx(c["dgms"], c["hom_deg"], c["start"], c["stop"], c["n"], used)
-        print("code:", _short(code, 2000), "grid used:", used)
+        print("code:", _short(code, 2000), "grid reported by the object:", used)
         g = resolved_grid(c)
-        if g is None:
+        valid = bool(c["dgms"]) and 0 <= c["hom_deg"] < len(c["dgms"])
+        if not valid:
             return True
-        if used and not (float(used[0]) == g[0] and float(used[1]) == g[1] and used[2] == c["n"]):
-            print("expected grid:", g, c["n"])
-            return False
         bars = finite_bars(c["dgms"][c["hom_deg"]])
-        if c["n"] >= 2 and g[0] <= g[1] and covers(bars, g[0], g[1]):
-            if isinstance(code, str):
-                return False
-            ok, detail, _ = bound_check(code, bars, g[0], g[1], c["n"])
+        if isinstance(code, str):
+            # no numeric result: fails if the grid (given, or the tight default) covers the bars
+            return not (g is not None and c["n"] >= 2 and g[0] <= g[1] and covers(bars, g[0], g[1]))
+        jg = judged_grid(c, used) if used else None
+        print("judged on the grid (given values, else the object's own):", jg)
+        if jg is not None and jg[2] >= 2 and jg[0] <= jg[1] and covers(bars, jg[0], jg[1]):
+            ok, detail, _ = bound_check(code, bars, jg[0], jg[1], jg[2])
             print("bound:", detail)
             return ok
         return True
     if op == "transform":
-        code = code_transform(c["dgms"], c["hom_deg"], c["start"], c["stop"], c["n"], c["flatten"], c["fit"])
-        direct = code_approx(c["dgms"], c["hom_deg"], c["start"], c["stop"], c["n"])
-        want = [x for row in direct for x in row] if isinstance(direct, list) and c["flatten"] else direct
-        print("transformer:", _short(code, 1500), "\napprox values:", _short(direct, 1500))
-        return code == want or (isinstance(code, str) and isinstance(direct, str) and code.startswith("err:"))
+        ok, code, direct, tg = transform_eval(c)
+        print("transformer:", _short(code, 1500), "\napprox values on the transformer's grid %r:" % (tg,), _short(direct, 1500))
+        return ok is not False
     if op == "vectorize":
-        code = code_vectorize(c["cps"], c["start"], c["stop"], c["n"])
-        print("code:", _short(code, 2000))
-        if not isinstance(code, list):
-            return True
-        xs0 = [p[0] for p in c["cps"][0]]
-        s = min(xs0) if c["start"] is None else c["start"]
-        e = max(xs0) if c["stop"] is None else c["stop"]
-        scale = max([1.0, abs(s), abs(e)] + [abs(p[1]) for d in c["cps"] for p in d])
-        gv = np.linspace(s, e, c["n"])
-        return all(abs(float(fr(code[k][i]) - eval_pl([(fr(x), fr(y)) for x, y in d], fr(t)))) <= TOL * scale
-                   for k, d in enumerate(c["cps"]) for i, t in enumerate(gv))
+        ok, code, scale, jg = vectorize_eval(c)
+        print("code:", _short(code, 2000), "judged grid:", jg)
+        return ok is not False
     if op == "vectorize_true":
-        code, fired, grid = code_vectorize_true(c["bars"], c["start"], c["stop"], c["n"])
-        print("code:", _short(code, 2000), "shortcut fired:", fired, "grid:", grid)
-        if grid is None:
-            return False
-        ok, detail = vectorize_true_check(code, c["bars"], grid, c["n"])
-        print("against the true landscape:", detail)
-        return ok
+        res = vectorize_true_eval(c)
+        print("code:", _short(res["code"], 2000), "shortcut fired:", res["fired"], "grid:", res["grid"])
+        print("against the true landscape:", res["detail"], "| samples the landscape's own critical pairs faithfully:", res["faithful"])
+        return res["ok"] is not False
     if op == "death":
         code = code_death(c["dgms"], c["hom_deg"])
         print("code:", code)
         if not isinstance(code, list):
             return True
-        return all(a >= b for a, b in zip(code, code[1:])) and sorted(code) == sorted(float(b[1]) for b in c["dgms"][0])
+        return death_ok(code, c["dgms"][0])
     print("nothing to replay on the real code: %s" % _short(c))
     return True
 
@@ -1017,7 +1204,12 @@ MANIFEST = {
             "samples the landscape's OWN critical pairs (given the np.interp contract); that these samples are the TRUE landscape "
             "values transfers through C03 (critical pairs = landscape) and is tested here directly on the real code against the exact "
             "landscape at the grid nodes - it fails where the C03 repeated-bar shortcut fires, which is replayed on every run and "
-            "reported as KNOWN-FINDING; a wrong value without the shortcut trace is a VIOLATION.  The model is tied to the code on "
+            "reported as KNOWN-FINDING; a failing case is attributed to it only when the call returned, vectorize samples the "
+            "landscape object's own critical pairs faithfully and those are exactly the output of the Lean model of the sweep with "
+            "the shortcut - anything else (a raise, an unfaithful sampling, another wrong landscape) is a VIOLATION.  Defaults the "
+            "statement does not fix (default grid, default num_steps, transform on an unfitted transformer, zero-row values, infinite "
+            "deaths in death_vector) are compared with the model as correspondence only; the bound is judged on the grid the object "
+            "reports.  The model is tied to the code on "
             "every run by executing it at Rat against the real classes (exactly on dyadic grids, 1e-9 otherwise) and the bound is "
             "also evaluated on the real code.",
     "note": "Trusted: Lean kernel + Mathlib (axioms propext/Classical.choice/Quot.sound); the correspondence harness and the compiled "
